@@ -184,11 +184,12 @@ theorem pushScalar_complete (ext : Ext) : ∀ (b : B) (x : SVal) (dt : DataType)
     | _ => simp [interpScalar, fail] at hi
   | .dictionary p idx vals index, x, dt, n, md, lv, hwf, hs, _, hr, hi => by
     simp only [Shape] at hs
-    obtain ⟨⟨kdt, vdt, rfl⟩, hil, _, hu8⟩ := hs
+    obtain ⟨⟨kdt, vdt, rfl, hsv⟩, hil, _, hu8⟩ := hs
     obtain ⟨p', t, v, ivals, rfl⟩ := isIntLeaf_form hil
+    have hu8 := dict_interp_utf8 hsv hu8 hi
+    rw [interpScalar_dict_utf8 hsv hu8] at hi
     obtain ⟨p'', ty, v2, offs, data, rfl, hty⟩ := isUtf8B_form hu8
     simp only [room] at hr
-    simp only [interpScalar] at hi
     cases hs : scalarToString ext x with
     | none => simp [hs, fail] at hi
     | some s =>
